@@ -1002,7 +1002,8 @@ Structure read_pdb_from_stream(AnyStream& line_reader, const std::string& source
       helix.end.chain_name = read_string(line+30, 2);
       helix.end.res_id = read_res_id(line+33, line+27);
       helix.set_helix_class_as_int(read_int(line+38, 2));
-      if (len > 72)
+      // blank field = length not given (that's how it is written)
+      if (len > 72 && !read_string(line+72, 5).empty())
         helix.length = read_int(line+72, 5);
       st.helices.emplace_back(helix);
 
